@@ -94,7 +94,7 @@ Inductive pc :=
 | PCleanup (sh : shape) (k : key)    (* holds a replica; failed try, before the cleanup critical section *)
 | PCancel (k : key)                  (* pending wait is being dropped; before the cancel critical section *)
 | PDrops (gs : list gid) (af : after)  (* dropping guards gs in order; on_unlock of the head has run *)
-| PScan (cutoff : option Z)          (* expiry scan, before its critical section *)
+| PScan (cutoff : Z)                 (* expiry scan, before its critical section *)
 | PStreamEnter
 | PStream (subs : list (key * sub))
 | PStreamDrop (subs : list (key * sub))
@@ -150,7 +150,6 @@ Definition site_consume_shared := 6.    (* try_unwrap failed *)
 Definition site_consume_none := 7.      (* "Invariant 2 violated ..." in into_entries_unordered *)
 Definition site_inv2 := 8.              (* slow_assertions: assert_invariant *)
 Definition site_cancel_absent := 9.
-Definition site_instant := 11.          (* Instant - Duration overflow (must not exist after the fix) *)
 
 Definition with_ents (s : state) e := mkS e (s_guards s) (s_ops s) (s_clock s) (s_gid s).
 Definition with_guards (s : state) g := mkS (s_ents s) g (s_ops s) (s_clock s) (s_gid s).
@@ -342,7 +341,7 @@ Definition cancel_ents (c : cfg) (ents : list (key * entry)) (a : aid) (k : key)
   | None => inr site_cancel_absent
   | Some e =>
     let e1 := set_repl (mx_cancel e a) (e_repl e - 1) in
-    let ents1 := promote_if_lru c k (aset k e1 ents) in
+    let ents1 := aset k e1 ents in   (* the cleanup uses MapLike::peek: no LRU promotion *)
     if Nat.eqb (e_repl e1) 0 then
       match e_owner e1 with
       | Some _ => inr site_cleanup_locked
@@ -445,16 +444,12 @@ Definition expired_keys (ents : list (key * entry)) (order : list key) (cutoff :
     | None => false
     end) order.
 
-Definition do_scan (c : cfg) (s : state) (a : aid) (cutoff : option Z) (o : list key) : result :=
+Definition do_scan (c : cfg) (s : state) (a : aid) (cutoff : Z) (o : list key) : result :=
   match iter_order c s o with
   | None => RInvalid
   | Some order =>
-    match cutoff with
-    | None => ROk (fin s a) (OExpired [])
-    | Some ct =>
-      let (s1, l) := lock_keys s (expired_keys (s_ents s) order ct) in
-      ROk (fin s1 a) (OExpired l)
-    end
+    let (s1, l) := lock_keys s (expired_keys (s_ents s) order cutoff) in
+    ROk (fin s1 a) (OExpired l)
   end.
 
 (* Instant arithmetic: tokio::time::Instant - Duration is undefined (panics) below this floor;
@@ -531,13 +526,7 @@ Definition do_sub_drop (c : cfg) (s : state) (a : aid) (subs : list (key * sub))
       | _ => ROk (set_pc s1 a (PStreamDrop subs')) ONothing
       end in
     match st with
-    | SInit =>
-      match cleanup_ents (s_ents s) k with
-      | inr site => RPanic site
-      | inl None => RInvalid
-      | inl (Some ents) => finish ents
-      end
-    | SQueued =>
+    | SInit | SQueued =>   (* PendingLock::drop, whether or not the future was ever polled *)
       match cancel_ents c (s_ents s) a k with
       | inr site => RPanic site
       | inl None => RInvalid
@@ -686,7 +675,10 @@ Definition do_start (c : cfg) (s : state) (a : aid) (cl : call) : result :=
       else RInvalid
   | CExpire d =>
       if c_lru c && Z.leb 0 d
-      then ROk (set_pc s a (PScan (cutoff_of (s_clock s) d))) ONothing
+      then match cutoff_of (s_clock s) d with
+           | Some ct => ROk (set_pc s a (PScan ct)) ONothing
+           | None => ROk s (OExpired [])   (* checked_sub failed: returns without taking any lock *)
+           end
       else RInvalid
   | CStream => ROk (set_pc s a PStreamEnter) ONothing
   | CCount => ROk (set_pc s a PCount) ONothing
